@@ -175,7 +175,7 @@ def run(ctx):
             case = A.gen_case(ctx.rng, k=2, N=ctx.rng.choice([9, 14, 25]), general="residue")
         ctx.hit("general_stream")
         check(ctx, case, reqs, pend)
-    for it in range(ctx.n(3, 24)):   # extents straddling the narrow coordinate types the array cube picks (2^8; thorough: 2^16)
+    for it in range(ctx.n(3, 48)):   # extents straddling the narrow coordinate types the array cube picks (2^8; thorough: 2^16)
         case = A.gen_case(ctx.rng, wide="u16" if (ctx.tier == "thorough" and it % 8 == 7) else "u8")
         ctx.hit("wide_extents")
         check(ctx, case, reqs, pend)
